@@ -435,3 +435,61 @@ pub fn run_simulated_process<T: Send + 'static>(
         Err(_) => Err("panic outside catch_unwind".to_string()),
     }
 }
+
+/// Runs `f` in a forked child of the (single-threaded) worker and returns its serialised result.
+/// Simulated command-line processes get what a real process has: fresh process-global state
+/// (statics, lazies, caches a change under test may introduce), and a crash (abort, stack
+/// overflow) that ends only the child. Err(text) if the child died without a result.
+pub fn run_forked<T: serde::Serialize + serde::de::DeserializeOwned>(f: impl FnOnce() -> T) -> Result<T, String> {
+    use std::io::Write;
+    let _ = std::io::stdout().flush();
+    let _ = std::io::stderr().flush();
+    let mut fds = [0i32; 2];
+    unsafe {
+        if libc::pipe(fds.as_mut_ptr()) != 0 {
+            return Err("pipe() failed".into());
+        }
+        let pid = libc::fork();
+        if pid < 0 {
+            libc::close(fds[0]);
+            libc::close(fds[1]);
+            return Err("fork() failed".into());
+        }
+        if pid == 0 {
+            libc::close(fds[0]);
+            let r = std::panic::catch_unwind(std::panic::AssertUnwindSafe(f));
+            let payload = match r {
+                Ok(v) => serde_json::to_vec(&v).unwrap_or_default(),
+                Err(_) => Vec::new(),
+            };
+            let mut off = 0;
+            while off < payload.len() {
+                let n = libc::write(fds[1], payload[off..].as_ptr() as *const c_void, payload.len() - off);
+                if n <= 0 {
+                    break;
+                }
+                off += n as usize;
+            }
+            libc::close(fds[1]);
+            libc::_exit(0);
+        }
+        libc::close(fds[1]);
+        let mut data = Vec::new();
+        let mut buf = [0u8; 65536];
+        loop {
+            let n = libc::read(fds[0], buf.as_mut_ptr() as *mut c_void, buf.len());
+            if n <= 0 {
+                break;
+            }
+            data.extend_from_slice(&buf[..n as usize]);
+        }
+        libc::close(fds[0]);
+        let mut status = 0i32;
+        libc::waitpid(pid, &mut status, 0);
+        if data.is_empty() {
+            let why = if libc::WIFSIGNALED(status) { format!("killed by signal {}", libc::WTERMSIG(status)) } else { format!("exit status {}", libc::WEXITSTATUS(status)) };
+            return Err(format!("simulated process ended without a result ({why})"));
+        }
+        serde_json::from_slice(&data).map_err(|e| format!("unreadable result from simulated process: {e}"))
+    }
+}
